@@ -133,6 +133,11 @@ func fileFixtures(r *rand.Rand, thorough bool) []*fileFixture {
 		st5 := store.New()
 		root5, _ := handFile(st5, [][]byte{{}, {}, []byte("hello"), []byte(" wor"), []byte("ld")}, handFileOpts{Width: 2, PBLeaves: false})
 		out = append(out, mkFixture("hand-leadingempty-interior-raw", st5, root5, content))
+		// the same shape in a file that declares file sizes but no block sizes: an interior node of file
+		// size 0 answers "how long are you" from its own block like any other
+		st7 := store.New()
+		root7, _ := handFile(st7, [][]byte{[]byte("hel"), []byte("lo "), {}, {}, []byte("wor"), []byte("ld"), {}, {}}, handFileOpts{Width: 2, PBLeaves: true, LeafType: 2, NoBlockSize: true})
+		out = append(out, mkFixture("hand-emptyinterior-pb-nobs", st7, root7, content))
 		st6 := store.New()
 		root6, _ := handFile(st6, [][]byte{{}, {}, []byte("hel"), []byte("lo "), {}, {}, []byte("world")}, handFileOpts{Width: 2, PBLeaves: true, LeafType: 2})
 		out = append(out, mkFixture("hand-emptyinterior-pb", st6, root6, content))
